@@ -40,4 +40,12 @@ def serialize(case):
 
 
 def evaluate(text, ctx):
-    return simprop.evaluate_family(text, ctx, FAMILY, NONTRIVIAL)
+    out = simprop.evaluate_family(text, ctx, FAMILY, NONTRIVIAL)
+    if out.ok and ctx.tier == "thorough" and "rel" in ctx.build_dirs:
+        # the shipped configuration (gcc -O3 -DNDEBUG): a crash or a library abort counts the same
+        res = ctx.run(text, "rel")
+        if res.crashed:
+            from ..common import crash_outcome
+            return crash_outcome(res, "sim-crash-rel")
+        out.classes = tuple(out.classes) + ("also-run-on-rel",)
+    return out
